@@ -39,6 +39,14 @@ def compare_frames(rt, rrt):
     diffs = []
     hp = set(rt.frames)
     rp = set(rrt.frames)
+    if rrt.aborted:
+        # children of a task aborted by a NonAsyncContext are abandoned mid-way:
+        # nothing awaits them any more, so they are not part of the computation
+        def under(p):
+            return isinstance(p, tuple) and any(p[:n] in rrt.aborted for n in range(len(p)))
+
+        hp = set(p for p in hp if not under(p))
+        rp = set(p for p in rp if not under(p))
     for p in sorted(hp - rp, key=repr):
         diffs.append((p, "task ran only on asynq", None, rt.frames[p].received))
     for p in sorted(rp - hp, key=repr):
@@ -101,8 +109,14 @@ def execute(prog, how, pol, seed, monitors, rrt_exp=None, fresh_scheduler=True):
         book = M.FlushBook(rt, "flushbook_prio" in monitors)
         rt.before_probes.append(book.on_before)
         rt.after_probes.append(book.on_after)
+    if "ctxactive" in monitors:
+        rt.step_probes.append(M.ctx_step_probe)
+        rt.before_probes.append(M.ctx_flush_probe)
+        rt.close_probes.append(M.nonasync_close_probe)
     rt.book = book
     out = rt.run(how, fresh_scheduler=fresh_scheduler)
+    if "nesting" in monitors:
+        M.nesting_check(rt)
     if book is not None:
         book.finish(rt)
     if rrt_exp is not None and not needs_observed_items(prog):
@@ -151,6 +165,13 @@ COUNTER_ATTRS = [
     "n_completion_checks",
     "n_identity_checks",
     "n_restore_checks",
+    "n_ctx_checks",
+    "n_ctx_exclusive",
+    "n_ctx_must_be_paused",
+    "n_ctx_shared",
+    "n_na_flush_checks",
+    "n_na_aborts",
+    "n_nesting_events",
     "model_disagreements",
 ]
 
